@@ -628,6 +628,21 @@ def t_interp():
     out += f"Definition rb_init_low (n : Z) : Z := {inits['ilow']}.\nDefinition rb_init_high (n : Z) : Z := {inits['ihigh']}.\n"
     out += f"Definition rb_continue (ilow ihigh : Z) : bool := {cond}.\nDefinition rb_mid (ilow ihigh : Z) : Z := {mid}.\n"
     out += f"Definition rb_go_right (q xmid : Z) : bool := {br}.\n"
+    # width of the integer type in which bracketing indices are stored (np.empty(..., dtype=np.uintNN) and the guvectorize signatures): an index i < n must fit
+    import re as _re
+    bits = []
+    for n_ in ast.walk(module('utilities/interpolate.py')):
+        if isinstance(n_, ast.keyword) and n_.arg == 'dtype':
+            m_ = _re.fullmatch(r'np\.u?int(\d+)', ast.unparse(n_.value))
+            if m_:
+                bits.append(int(m_.group(1)))
+            elif 'int' in ast.unparse(n_.value):
+                raise Unsupported('index dtype ' + ast.unparse(n_.value))
+        if isinstance(n_, ast.Constant) and isinstance(n_.value, str) and 'int' in n_.value and '[:]' in n_.value:
+            bits += [int(b) for b in _re.findall(r'u?int(\d+)\[', n_.value)]
+    if not bits:
+        raise Unsupported('no index dtypes found')
+    out += "From Coq Require Import List.\nDefinition index_dtype_bits : list Z := (" + ' :: '.join(zlit(b) for b in bits) + " :: nil).\n"
     return out
 
 
